@@ -199,7 +199,7 @@ KIND_WITNESS = {
     ("GetAttributeListResponsePayload", 0x42013B): None,      # shares the min1 witness below + struct reference
 }
 MIN1_WITNESS = {
-    ("Template", 0x420008): w_template_empty,
+    ("Template", 0x420008): w_template_empty,          # repaired in /repo 5cfdcfc: only reached if the row comes back
     ("GetAttributeListResponsePayload", 0x42013B): w_attribute_list_no_reference,
 }
 NO_OVERSIZED_WITNESS = {
@@ -436,6 +436,18 @@ def search(ctx, struct_run, rng, max_examples=40):
                                    "%s under KMIP %s accepts a child sequence (%s) and decode-encode-decode is not "
                                    "stable: %s" % (name, VNUM[vn], d, detail),
                                    {"kind": "struct-bytes", "class": name, "version": vn, "hex": b.hex()})
+    # minimal values at the cardinality differences of the two tables: an EMPTY repeated field the writer emits and
+    # the reader insists on (the known witnesses first, then every class whose tables differ there)
+    for key, w in sorted(MIN1_WITNESS.items()):
+        if key not in FINDING_SIGNATURES:
+            continue
+        try:
+            ok, desc, replay_ = w()
+        except Exception:
+            continue
+        n += 1
+        if ok:
+            ctx.report(FINDING_SIGNATURES[key], desc, replay_)
     ctx.coverage["schema_gen_search"] = {"table_differences": [{"class": a, "fields": b} for a, b in rows][:20],
                                          "classes_searched": suspects, "monitor_evaluations": n}
     return n
